@@ -13,7 +13,9 @@ class, `Position.line` and `Position.character` (any u32) are solver variables."
 import itertools
 import random
 
-from common import (BROKEN, HELD, INCONCLUSIVE, VIOLATED, Obligation, Report, Scratch, extract_fn, log)
+import re
+
+from common import (BROKEN, HELD, INCONCLUSIVE, VIOLATED, Obligation, Report, Scratch, extract_fn, log, VERIF as VERIF_DIR)
 from kani import Harness, KaniRun, confirm_violations
 
 REF = r"""
@@ -161,6 +163,258 @@ def shapes_for(tier, seed):
     return idx, mono, step
 
 
+BATTERY = r'''
+//! replay battery for dataflow counterexamples of FileCache::incremental_update (generated by /verif/props/c28.py):
+//! concrete LSP histories through the public fake client; the server copy (VFS) is compared with a client-side model.
+use std::path::PathBuf;
+use els::Server;
+use erg_common::vfs::VFS;
+use lsp_types::notification::{DidChangeTextDocument, DidOpenTextDocument};
+use lsp_types::{DidChangeTextDocumentParams, DidOpenTextDocumentParams, Position, Range, TextDocumentContentChangeEvent,
+                TextDocumentItem, Url, VersionedTextDocumentIdentifier};
+
+fn model_index(doc: &str, pos: Position) -> usize {
+    let mut off = 0;
+    for (ln, line) in doc.split_inclusive('\n').enumerate() {
+        if ln as u32 == pos.line {
+            let body = line.trim_end_matches('\n');
+            let mut units = 0;
+            for (i, c) in body.char_indices() {
+                if units >= pos.character { return off + i; }
+                units += c.len_utf16() as u32;
+            }
+            return off + body.len();
+        }
+        off += line.len();
+    }
+    doc.len()
+}
+fn ch(sl: u32, sc: u32, el: u32, ec: u32, text: &str, with_len: bool, doc: &str) -> TextDocumentContentChangeEvent {
+    let r = Range::new(Position::new(sl, sc), Position::new(el, ec));
+    let len = if with_len { let s = model_index(doc, r.start); let e = model_index(doc, r.end); Some(doc[s..e].encode_utf16().count() as u32) } else { None };
+    TextDocumentContentChangeEvent { range: Some(r), range_length: len, text: text.to_string() }
+}
+fn full(text: &str) -> TextDocumentContentChangeEvent { TextDocumentContentChangeEvent { range: None, range_length: None, text: text.to_string() } }
+fn apply(doc: &mut String, c: &TextDocumentContentChangeEvent) {
+    match c.range { Some(r) => { let s = model_index(doc, r.start); let e = model_index(doc, r.end); doc.replace_range(s..e, &c.text); } None => { *doc = c.text.clone(); } }
+}
+#[test]
+fn battery() -> Result<(), Box<dyn std::error::Error>> {
+    let mut client = Server::bind_fake_client();
+    client.request_initialize()?;
+    client.notify_initialized()?;
+    let dir = std::env::temp_dir().join(format!("verif_c28_{}", std::process::id()));
+    std::fs::create_dir_all(&dir)?;
+    let mut n = 0;
+    let mut run = |name: &str, start: &str, notes: &dyn Fn(&str) -> Vec<Vec<TextDocumentContentChangeEvent>>| -> Result<(), Box<dyn std::error::Error>> {
+        n += 1;
+        let path: PathBuf = dir.join(format!("s{n}.er"));
+        std::fs::write(&path, start)?;
+        let path = path.canonicalize()?;
+        let uri = Url::from_file_path(&path).unwrap();
+        let mut doc = start.to_string();
+        let mut ver = 1;
+        client.notify::<DidOpenTextDocument>(DidOpenTextDocumentParams { text_document: TextDocumentItem::new(uri.clone(), "erg".into(), ver, doc.clone()) })?;
+        let mut ok = VFS.read(&path)? == doc;
+        // the notifications are computed against the evolving client document
+        let mut i = 0;
+        loop {
+            let all = notes(&doc);
+            if i >= all.len() { break; }
+            // each closure call recomputes from the current doc; take the i-th notification
+            let changes = all[i].clone();
+            i += 1;
+            ver += 1;
+            for c in &changes { apply(&mut doc, c); }
+            client.notify::<DidChangeTextDocument>(DidChangeTextDocumentParams { text_document: VersionedTextDocumentIdentifier::new(uri.clone(), ver), content_changes: changes })?;
+            if VFS.read(&path)? != doc { ok = false; }
+        }
+        println!("SCN {} {}", name, if ok { "OK" } else { "FAIL" });
+        Ok(())
+    };
+    run("multi-doc-order", "a = 1\nb = 2\nprint! a, b\n", &|d| vec![vec![ch(0, 0, 0, 0, "# h\n", false, d), ch(2, 4, 2, 5, "33", false, d)], vec![ch(0, 0, 0, 1, "x", false, d), ch(0, 1, 0, 1, "y", false, d)]])?;
+    run("multi-bottom-up", "a = 1\nb = 2\n", &|d| vec![vec![ch(1, 4, 1, 5, "20", false, d), ch(0, 0, 0, 1, "aa", false, d)]])?;
+    run("rangelength-nonascii", "s = \"cr\u{e8}me \u{e9}\u{e8}\"\nt = 1\n", &|d| vec![vec![ch(0, 10, 0, 12, "", true, d)], vec![ch(0, 5, 0, 8, "XY", true, d)]])?;
+    run("rangelength-astral", "a = \"\u{1F600}\u{1F600}b\"\n", &|d| vec![vec![ch(0, 5, 0, 9, "", true, d)], vec![ch(0, 5, 0, 6, "zz", true, d)]])?;
+    run("full-text-change", "a = 1\n", &|_d| vec![vec![full("b = 2\nc = 3\n")], vec![ch(1, 0, 1, 1, "d", false, "b = 2\nc = 3\n")]])?;
+    run("append-after-multibyte", "x = \"\u{e9}\"", &|d| vec![vec![ch(0, 7, 0, 7, "\ny = 1", false, d)], vec![ch(5, 0, 5, 0, "!", false, d)]])?;
+    println!("BATTERY-DONE");
+    Ok(())
+}
+'''
+
+
+def dataflow(rep, s, tier):
+    """FileCache::incremental_update as a dataflow problem (engines/mirflow.py): one iteration of the loop over
+    content_changes from an arbitrary loop-head state, every call uninterpreted; z3 decides by congruence that the working
+    copy is threaded through the loop, that both positions are converted against it, that String::replace_range gets exactly
+    (start..end, text), that a change without a range replaces the document, and that the VFS / cache entry receive it."""
+    import z3
+    import mirflow as F
+    import mir2smt as M
+    from common import sh
+    import os
+    fsrc = s.read("crates/els/file_cache.rs")
+    rep.add_function("FileCache::incremental_update", "crates/els/file_cache.rs", extract_fn(fsrc, "incremental_update"))
+    base = dict(engine="mirflow (MIR -> z3 uninterpreted functions)", functions=["FileCache::incremental_update"], solver="z3",
+                symbolic=["the loop-head state (working copy, iterator, cache entry)", "the change event", "every callee as an uninterpreted function"],
+                bounds={"iterations": "one arbitrary iteration (inductive step) + the loop exit"})
+    tdir = os.path.join(s.root, "mir-target-els")
+    cmd = ["cargo", "+nightly", "rustc", "--offline", "-p", "els", "--lib", "--profile", "check", "--", "-Zunpretty=mir", "-C", "debug-assertions=off"]
+    import subprocess, time
+    t0 = time.time()
+    p = subprocess.run(cmd, cwd=s.src, env=s.env(CARGO_TARGET_DIR=tdir), stdout=subprocess.PIPE, stderr=subprocess.PIPE, text=True, errors="replace", timeout=3000)
+    if p.returncode != 0 or len(p.stdout) < 1000:
+        # `--profile check` needs the unstable flag on some toolchains: fall back to the dev profile
+        cmd = [c for c in cmd if c not in ("--profile", "check")]
+        p = subprocess.run(cmd, cwd=s.src, env=s.env(CARGO_TARGET_DIR=tdir), stdout=subprocess.PIPE, stderr=subprocess.PIPE, text=True, errors="replace", timeout=3000)
+    log("  MIR dump els: %.0fs, %d KB" % (time.time() - t0, len(p.stdout) >> 10))
+    if p.returncode != 0 or len(p.stdout) < 1000:
+        rep.add(Obligation(base, key="incremental_update/mir", verdict=BROKEN, reason="MIR dump of els failed: " + p.stderr[-300:]))
+        return
+    fn = F.load_fn(p.stdout, "file_cache::", "incremental_update")
+    if fn is None:
+        rep.add(Obligation(base, key="incremental_update/mir", verdict=BROKEN, reason="incremental_update not found in the MIR dump"))
+        return
+    heads = [bb for bb, st in fn.blocks.items() if any("as Iterator>::next(" in x for x in st)]
+    if len(heads) != 1:
+        rep.add(Obligation(base, key="incremental_update/loop", verdict=INCONCLUSIVE, reason="expected exactly one loop over the content changes, found %d" % len(heads)))
+        return
+    events = {}
+
+    def eff_deref(fl, P, callee, args):
+        a = args[0]
+        v = fl.read(P, a.local, list(a.path)) if isinstance(a, F.Ref) else a
+        return F.fun("str_of", 1)(fl.term(v))
+
+    def eff_p2b(fl, P, callee, args):
+        r = F.fun("p2b", 2)(fl.term(args[0]), fl.term(args[1]))
+        P.calls.append(("p2b", args, r))
+        return r
+
+    def eff_replace(fl, P, callee, args):
+        tgt = args[0]
+        if not isinstance(tgt, F.Ref):
+            raise F.Unsupported("replace_range target is not a local reference")
+        old = fl.read(P, tgt.local, list(tgt.path))
+        new = F.fun("replace", 3)(fl.term(old), fl.term(args[1]), fl.term(args[2]))
+        P.calls.append(("replace_range", [tgt.local, old, args[1], args[2]], new))
+        fl.write(P, tgt.local, list(tgt.path), new)
+        return F.const("unit")
+
+    def eff_next(fl, P, callee, args):
+        r = F.const("next_item")
+        P.calls.append(("next", [args[0]], r))
+        return r
+
+    def eff_clone(fl, P, callee, args):
+        a = args[0]
+        v = fl.read(P, a.local, list(a.path)) if isinstance(a, F.Ref) else a
+        return fl.term(v)       # a clone is the same value
+    fl = F.Flow(fn, {r"String as (std::ops::)?Deref>::deref$": eff_deref, r"pos_to_byte_index$": eff_p2b,
+                     r"String::replace_range": eff_replace, r"as Iterator>::next$": eff_next, r"String as Clone>::clone$": eff_clone})
+    try:
+        paths = fl.run(heads[0], set(heads))
+    except F.Unsupported as e:
+        rep.add(Obligation(base, key="incremental_update/*", verdict=INCONCLUSIVE, reason="unsupported-construct: %s" % e))
+        return
+    item = F.const("next_item")
+    chg = F.fun("field0", 1)(F.fun("as_Some", 1)(item))          # ((item as Some).0)
+    ropt = F.fun("field0", 1)(chg)                               # TextDocumentContentChangeEvent.range (field 0; .text is field 2: lsp-types 0.93)
+    rng = F.fun("field0", 1)(F.fun("as_Some", 1)(ropt))
+    text = F.fun("str_of", 1)(F.fun("field2", 1)(chg))
+    sol = z3.Solver()
+    sol.set("timeout", 20000)
+
+    def proves(pc, eq):
+        sol.push()
+        for c in pc:
+            sol.add(c)
+        sol.add(z3.Not(eq))
+        r = sol.check()
+        sol.pop()
+        return str(r) == "unsat"
+    it_paths = [(P, end) for P, end in paths if end == heads[0]]
+    exit_paths = [(P, end) for P, end in paths if end == "return"]
+    with_range = [P for P, _ in it_paths if any(c[0] == "replace_range" for c in P.calls)]
+    no_range = [P for P, _ in it_paths if not any(c[0] == "replace_range" for c in P.calls)]
+    results = []
+
+    def add(key, ok, why, detail=""):
+        o = Obligation(base, key="incremental_update/" + key, queries=1)
+        if ok is None:
+            o.update(verdict=INCONCLUSIVE, reason=detail or why)
+        elif ok:
+            o.update(verdict=HELD, reason=why)
+        else:
+            o.update(verdict=VIOLATED, reason=why + " does not hold: " + detail)
+        rep.add(o)
+        results.append(o)
+    if len(with_range) != 1:
+        add("loop/one-edit-per-change", None, "", "expected one path that edits the working copy per change with a range, found %d" % len(with_range))
+    else:
+        P = with_range[0]
+        rr = [c for c in P.calls if c[0] == "replace_range"]
+        L = rr[0][1][0]
+        initL = F.const("init_" + L)
+        add("loop/one-edit-per-change", len(rr) == 1, "a change with a range edits the working copy exactly once", "%d calls of String::replace_range" % len(rr))
+        add("loop/threads-working-copy", proves(P.pc, fl.term(rr[0][1][1]) == initL),
+            "the text edited in this iteration is the working copy left by the previous iteration", "edited value: %s" % rr[0][1][1])
+        want_range = F.fun("mk_std_ops_Range", 2)(F.fun("p2b", 2)(F.fun("str_of", 1)(initL), F.fun("field0", 1)(rng)),
+                                                   F.fun("p2b", 2)(F.fun("str_of", 1)(initL), F.fun("field1", 1)(rng)))
+        got_range = fl.term(rr[0][1][2])
+        unknown = [c[0] for c in P.calls if c[0] not in ("p2b", "replace_range", "next", "store") and "drop" not in c[0]]
+        ok = proves(P.pc, got_range == want_range)
+        add("loop/range-from-working-copy", ok if (ok or not unknown) else False,
+            "replace_range gets pos_to_byte_index(working copy, range.start) .. pos_to_byte_index(working copy, range.end)",
+            "range argument: %s%s" % (str(got_range)[:300], ("; other calls on the path: %s" % unknown[:3]) if unknown else ""))
+        add("loop/text", proves(P.pc, fl.term(rr[0][1][3]) == text), "replace_range gets the change's text", "text argument: %s" % str(rr[0][1][3])[:200])
+        fin = P.locals.get(L)
+        add("loop/result-is-the-edit", proves(P.pc, fl.term(fin) == F.fun("replace", 3)(initL, want_range, text)),
+            "the working copy after the iteration is replace(previous copy, start..end, text)", str(fin)[:300])
+        for Q in no_range:
+            finq = Q.locals.get(L, initL)
+            add("loop/no-range-is-full-text", proves(Q.pc, fl.term(finq) == F.fun("field2", 1)(chg)),
+                "a change without a range replaces the whole document (LSP: 'the new text is considered to be the full content')",
+                "working copy after such a change: %s" % str(finq)[:200])
+        for Q, _ in exit_paths[:1]:
+            vfs = [c for c in Q.calls if "SharedVFS::update" in c[0]]
+            stores = [c for c in Q.calls if c[0] == "store" and c[1][1] == (("field", 0),)]
+            add("exit/vfs-gets-working-copy", bool(vfs) and proves(Q.pc, fl.term(vfs[0][1][2]) == initL), "VFS.update receives the working copy",
+                str(vfs[0][1][2])[:200] if vfs else "no call of SharedVFS::update on the exit path")
+            add("exit/entry-gets-working-copy", bool(stores) and proves(Q.pc, fl.term(stores[-1][1][2]) == initL), "the cache entry's code becomes the working copy",
+                str(stores[-1][1][2])[:200] if stores else "no store to the entry's code on the exit path")
+    # replay: the scenario battery through the public fake client confirms or refutes dataflow violations
+    viol = [o for o in results if o["verdict"] == VIOLATED and not rep.known.lookup(rep.prop, o["key"])]
+    if viol or tier == "thorough" or os.environ.get("VERIF_REPLAY_KNOWN") == "1":
+        tpath = s.path("crates/els/tests/verif_c28_battery.rs")
+        with open(tpath, "w") as f:
+            f.write(BATTERY)
+        rc, out, dt = sh(["cargo", "test", "--offline", "-p", "els", "--test", "verif_c28_battery", "--", "--nocapture", "--test-threads", "1"],
+                         cwd=s.src, env=s.env(CARGO_TARGET_DIR=os.path.join(s.root, "native")), timeout=3000)
+        scn = dict(re.findall(r"SCN (\S+) (OK|FAIL)", out))
+        crashed = "BATTERY-DONE" not in out
+        rep.extra["replay_battery"] = {"scenarios": scn, "completed": not crashed}
+        rep.replayed += len(scn)
+        relevant = {"loop/no-range-is-full-text": ["full-text-change"],
+                    "loop/text": list(scn), "exit/vfs-gets-working-copy": list(scn), "exit/entry-gets-working-copy": list(scn)}
+        for o in viol:
+            rel = relevant.get(o["key"].split("/", 1)[1], [k for k in scn if k != "full-text-change"])
+            failing = [k for k in rel if scn.get(k) == "FAIL"]
+            o["native_replay"] = {"battery": scn, "relevant": rel, "crashed": crashed, "tail": out[-400:] if crashed else ""}
+            if failing or crashed:
+                rd = os.path.join(VERIF_DIR, "replays", "C28")
+                os.makedirs(rd, exist_ok=True)
+                rp = os.path.join(rd, "battery_%s.rs" % o["key"].replace("/", "_"))
+                with open(rp, "w") as f:
+                    f.write("// dataflow obligation %s: %s\n// failing scenarios: %s%s\n// place as crates/els/tests/verif_c28_battery.rs and run: cargo test -p els --test verif_c28_battery -- --nocapture\n"
+                            % (o["key"], o["reason"], failing, " (the server crashed)" if crashed else "") + BATTERY)
+                o["replay"] = rp
+            else:
+                o["verdict"] = BROKEN
+                o["reason"] = "dataflow counterexample not confirmed by any scenario of the replay battery: " + o["reason"]
+
+
 def run(tier, seed, only=None):
     rep = Report("C28", tier, seed, "other",
                  "Bounded model checking (Kani/CBMC, SAT) of els::util::pos_to_byte_index, the position calculus of "
@@ -193,6 +447,8 @@ def run(tier, seed, only=None):
             for o in kr.obligations(h, functions=["els::util::pos_to_byte_index"]):
                 rep.add(o)
         confirm_violations(rep, s, [kr])
+        if not only or "flow" in only:
+            dataflow(rep, s, tier)
         rep.trusted += ["Kani 0.68, CBMC 6.11, CaDiCaL", "String::replace_range / str::char_indices as compiled from std by Kani",
                         "the LSP reference in props/c28.py (__ref_index)"]
         rep.assumptions += [
